@@ -162,19 +162,21 @@ def main(payload):
     # options reach search(): search(pat, ctx=True) == filter(match(pat, ctx=True), walk)
     for src_c in ('i = i + i', 'a[b] = a[c]', 'del x, y\nx = y', 'for t in t: t += t'):
         f0 = FST(src_c, 'exec')
-        for pat_c in (MName(ctx=MStore), MName(ctx=MLoad), MSubscript(ctx=MStore)):
+        for pat_c in (MName(ctx=MStore), MName(ctx=MLoad), MSubscript(ctx=MStore), ast.Name('i', ast.Store()),
+                      ast.Name('t', ast.Load()), ast.Name('y', ast.Store()), ast.Name('x', ast.Del()),
+                      ast.Subscript(ast.Name('a', ast.Load()), ast.Name('b', ast.Load()), ast.Load())):
             for ctx_opt in (True, False):
                 ev += 1
                 try:
                     found = [id(m.matched.a) for m in f0.search(pat_c, nested=True, ctx=ctx_opt)]
                     exp = [id(x.a) for x in f0.walk(True) if x.match(pat_c, ctx=ctx_opt)]
                 except Exception as e:
-                    fail(f'search.ctx.raises:{src_c}:{pat_c!r}:{ctx_opt}', f'raised {e!r}')
+                    fail(f'search.ctx.raises:{src_c}:{pat_c.__class__.__name__}:{ctx_opt}', f'raised {e!r}')
                     continue
                 if found != exp:
                     fail(f'search.ctx:{src_c}:{pat_c.__class__.__name__}:{ctx_opt}', f'search(ctx={ctx_opt}) yields '
                          f'{len(found)} nodes, filtering walk() with match(ctx={ctx_opt}) gives {len(exp)}')
-                distinct.add(('search.ctx', src_c, repr(pat_c), ctx_opt))
+                distinct.add(('search.ctx', src_c, ast.dump(pat_c) if isinstance(pat_c, ast.AST) else repr(pat_c), ctx_opt))
 
     # ---------------------------------------------------------------------------------------------------------------
     # (2) structure only: formatted tree, re-laid-out tree and pure AST give the same result and tags
